@@ -206,7 +206,7 @@ var tagPool = []string{"a", "A", "b", "x", "X", "y", "a,omitempty", ",omitempty"
 	// lengths around the 8- and 16-byte word sizes of the keyset lookup, with case variants
 	"abcdefghijklmnop", "ABCDEFGHIJKLMNOP", "abcdefghijklmno", "abcdefghijklmnopq", "abcdefgh", "ABCDEFGH", "abcdefghi", "abcdefghijklmnop,omitempty"}
 
-var embeddable = []string{"EmbA", "EmbB", "Deep"}
+var embeddable = []string{"EmbA", "EmbB", "Deep", "Dup"}
 
 var mapKeyKinds = []string{"string", "string", "string", "@NamedStr", "int", "int8", "int16", "int32", "int64", "uint", "uint8", "uint16", "uint32", "uint64", "uintptr", "@KText", "@NamedInt"}
 
@@ -237,7 +237,7 @@ func genLeaf(rt *rapid.T, o TypeOpts) TypeDesc {
 	if !o.NoCorpus && rapid.IntRange(0, 4).Draw(rt, "corpus") == 0 {
 		for tries := 0; tries < 4; tries++ {
 			n := rapid.SampledFrom(CorpusNames).Draw(rt, "cname")
-			if o.avoid("@"+n) || (o.avoid("shared-ptr-recv") && (n == "SAB" || n == "ArrTwice" || n == "MArrFirst")) || (o.avoid("string-on-string") && n == "SOpt") || (o.avoid("multiembed") && MultiEmbedCorpus[n]) || (o.avoid("iface") && n == "Shape") || (o.avoid("marshalers") && EncodeOnly[n]) || (o.avoid("embedded") && len(n) > 1 && (n[:2] == "SE" || n == "Deep")) {
+			if o.avoid("@"+n) || (o.avoid("shared-ptr-recv") && (n == "SAB" || n == "ArrTwice" || n == "MArrFirst")) || (o.avoid("string-on-string") && n == "SOpt") || (o.avoid("multiembed") && MultiEmbedCorpus[n]) || (o.avoid("iface") && n == "Shape") || (o.avoid("marshalers") && EncodeOnly[n]) || (o.avoid("embedded") && len(n) > 1 && (n[:2] == "SE" || n == "Deep" || n == "Dup")) {
 				continue
 			}
 			return TypeDesc{K: "@" + n}
@@ -403,7 +403,7 @@ func Fresh(d TypeDesc, nonce int) TypeDesc {
 
 // MultiEmbedCorpus: corpus structs with more than one embedded struct (name
 // conflicts between embedded structs at different depths).
-var MultiEmbedCorpus = map[string]bool{"SE1": true, "SE2": true, "SE3": true, "SE4": true, "SE9": true}
+var MultiEmbedCorpus = map[string]bool{"SE1": true, "SE2": true, "SE3": true, "SE4": true, "SE9": true, "SE13": true}
 
 var (
 	jsonMarshalerType   = reflect.TypeOf((*json.Marshaler)(nil)).Elem()
